@@ -424,6 +424,8 @@ WildNestedExcl(M, TS, o, r) ==
   IN \* two exclusions on the path, or one exclusion on a recursive relation (entered again through its own userset)
      /\ \/ Cardinality(withDiff) >= 2
         \/ \E g \in withDiff : g \in TSucc(M, g) \/ g \in TClosure(M, TSucc(M, g))
+        \* ... or two exclusions nested inside ONE relation's rewrite ("(viewer but not this) but not (editor but not owner)")
+        \/ \E g \in withDiff : Cardinality({x \in SubRw(Rw(M, g[1], g[2])) : x.k = "diff"}) >= 2
      /\ \E t \in TS : IsWild(t.u) /\ <<t.o.t, t.r>> \in reads
 
 \* KF-25 call site: an exclusion somewhere below (or above) another set operator on the evaluation
